@@ -268,3 +268,15 @@ def values_of(body, names):
     if any(n not in found for n in names):
         return None
     return ast.Tuple(elts=[found[n] for n in names], ctx=ast.Load())
+
+
+def expand_tuple_assigns(stmts):
+    """`a.x, a.y = p, q` (as many plain names on the right as targets on the left) as one assignment per target: the order of such copies is immaterial"""
+    out = []
+    for st in stmts:
+        if isinstance(st, ast.Assign) and len(st.targets) == 1 and isinstance(st.targets[0], ast.Tuple) and isinstance(st.value, ast.Tuple) and len(st.targets[0].elts) == len(st.value.elts) \
+                and all(isinstance(v, (ast.Name, ast.Constant)) for v in st.value.elts):
+            out += [ast.copy_location(ast.Assign(targets=[t], value=v, lineno=st.lineno), st) for t, v in zip(st.targets[0].elts, st.value.elts)]
+        else:
+            out.append(st)
+    return out
